@@ -61,7 +61,7 @@ void x86_call (x86_state *s, uint64_t target) {
   }
   /* the interpreter's results */
   for (unsigned j = 0; j < c->nres; j++) {
-    if (c->res[j] == SC_LD) { h_shim_res_ld[j] = h_ld_of_bits (nd (), nd ()); x86_ld_store (res + 16 * j, h_shim_res_ld[j]); }
+    if (c->res[j] == SC_LD) { h_shim_res_ld[j] = h_ld_nd (); x86_ld_store (res + 16 * j, h_shim_res_ld[j]); }
     else { h_shim_res[j] = nd (); X86_M64 (res + 16 * j) = h_shim_res[j]; X86_M64 (res + 16 * j + 8) = nd (); }
   }
   h_havoc_caller_saved (s);
@@ -78,18 +78,20 @@ static void h_run_shim_case (const h_case_t *c) {
   h_handler_calls = 0;
   sc_assign_args (c->nargs, c->args, &h_locs);
   H_ASSERT (h_locs.ok && sc_assign_results (c->nres, c->res, reslocs), "prototype is inside the oracle's domain");
+  unsigned ncw = 1 + h_locs.stack_bytes / 8 + 4; /* return address, memory arguments, four words beyond */
+  H_ASSERT (ncw <= H_CALLER_WORDS, "harness stack holds the memory arguments");
   h_nregions = 0;
   h_map (H_STACK_BASE, 8 * H_STACK_WORDS, h_stack);
   h_enter (&s);
-  for (unsigned i = H_STACK_BELOW + 1; i < H_STACK_WORDS; i++) h_stack[i] = nd ();
+  for (unsigned i = 1; i < ncw; i++) h_stack[H_STACK_BELOW + i] = nd ();
   for (unsigned i = 0; i < c->nargs; i++) {
     const sc_loc_t *l = &h_locs.arg[i];
     unsigned t = c->args[i].type;
     if (sc_is_blk_type (t)) continue;
-    if (t == SC_LD) { h_arg_ld[i] = h_ld_of_bits (nd (), nd ()); x86_ld_store (first + l->stack_off, h_arg_ld[i]); }
+    if (t == SC_LD) { h_arg_ld[i] = h_ld_nd (); x86_ld_store (first + l->stack_off, h_arg_ld[i]); }
     else h_arg_raw[i] = l->cls[0] == SC_CL_MEM ? X86_M64 (first + l->stack_off) : l->cls[0] == SC_CL_INT ? s.r[sc_int_arg_reg[l->reg[0]]] : s.xmm[l->reg[0]][0];
   }
-  for (unsigned i = 0; i < H_CALLER_WORDS; i++) h_caller_frame[i] = h_stack[H_STACK_BELOW + i];
+  for (unsigned i = 0; i < ncw; i++) h_caller_frame[i] = h_stack[H_STACK_BELOW + i];
 
   H_ASSERT (lift_dispatch (&s, c->lift_addr), "lifted shim exists");
 
@@ -97,7 +99,7 @@ static void h_run_shim_case (const h_case_t *c) {
   H_ASSERT (h_returned (&s), "shim returns to its caller with rsp restored");
   H_ASSERT (h_callee_saved_ok (&s), "rbx rbp r12-r15 preserved");
   H_ASSERT (s.mxcsr == h_in.mxcsr && s.fcw == h_in.fcw, "MXCSR and the x87 control word are as at entry");
-  for (unsigned i = 0; i < H_CALLER_WORDS; i++) H_ASSERT (h_stack[H_STACK_BELOW + i] == h_caller_frame[i], "the caller's frame is not written");
+  for (unsigned i = 0; i < ncw; i++) H_ASSERT (h_stack[H_STACK_BELOW + i] == h_caller_frame[i], "the caller's frame is not written");
   for (unsigned j = 0; j < c->nres; j++) nld += c->res[j] == SC_LD;
   H_ASSERT (s.fdepth == (int) nld, "x87 stack holds exactly the long double results");
   for (unsigned j = 0; j < c->nres; j++) {
